@@ -439,7 +439,7 @@ def obligations(tier: str, known: List[str]) -> List[Ob]:
             if not thorough and n == 3 and parents not in ((0, 0, 1), (0, 1, 2), (0, 1, 1)):
                 continue
             pats = PATTERNS.get(parents, [tuple([0] * n), tuple([1] + [3] * (n - 1)) if parents[1:] and all(p > 0 for p in parents[1:]) else tuple([0] * n)])
-            masks = range(2 ** (n - 1)) if (thorough or n <= 2) else (0, 2 ** (n - 1) - 1)
+            masks = range(2 ** (n - 1)) if ((thorough and n <= 3) or n <= 2) else (0, 2 ** (n - 1) - 1)
             for sp in dict.fromkeys(pats):
                 if not _valid_history(parents, list(sp)):
                     continue
